@@ -90,6 +90,7 @@ structure St where
   queue : List Conn := []           -- `conn_rx`: sent, not yet received
   chanOpen : Bool := true           -- an accept-side sender of `conn_rx` exists
   stopQ : List (Nat × Bool) := []   -- `stop_rx`: (stop number, graceful)
+  stopOpen : Bool := true           -- a server-side sender of `stop_rx` exists
   raw : Nat := Src.wcInit           -- raw value of the shared counter
   now : Nat := 0
   inflight : List Conn := []        -- handed to a service, guard alive
@@ -243,6 +244,18 @@ def created (s : St) (tok : Nat) (script : List Rd) : St :=
   let sv := s.svc tok
   { s with svc := upd s.svc tok { sv with status := .unavailable, script := script, inc := sv.inc + 1 }, state := .unavailable }
 
+/-- the `None` arm of the `Available` loop: the accept thread is gone (it drops its handles when it stops).
+**Behaviour demanded by C06** (finding F8; `fixes/C06-worker-waits-for-stop-after-accept-exit.patch`): that is
+not by itself a command to stop — the `Stop` channel is looked at again: a `Stop` is handled exactly as at the
+top of `poll` (and, if the worker goes on, `self.poll(cx)`), an empty open channel makes the worker wait,
+a closed one (the server is gone as well) ends it.  The original tree returned `Poll::Ready(())` here
+unconditionally, killing the connections in progress whenever the accept thread's exit overtook the
+`Stop` message. -/
+def closedArm (s : St) : St × Bool :=
+  match s.stopQ with
+  | [] => if s.stopOpen then ({ s with stopWaker := true }, false) else (finish s false, false)
+  | _ :: _ => ((stopPhase s).1, !(stopPhase s).2)
+
 /-- the arm of `match this.state` (worker.rs:625-724); `true` = the arm ends in `self.poll(cx)` -/
 def arm (s : St) : St × Bool :=
   match s.state with
@@ -261,7 +274,7 @@ def arm (s : St) : St × Bool :=
   | .available =>
     match availLoop s s.queue with
     | (s1, .pending) => (s1, false)
-    | (s1, .closed) => (finish s1 false, false)
+    | (s1, .closed) => closedArm s1
     | (s1, .toUnavailable) => ({ s1 with state := .unavailable }, true)
     | (s1, .restart i) => (restartService s1 i, true)
     | (s1, .fault) => (s1, false)
@@ -277,16 +290,34 @@ def pollW : Nat → St → St
 
 /-! ### the environment: accept thread, server, services finishing, the clock -/
 
+/-- actions of the other threads that may also run *inside* a `poll`, between the look at the `Stop`
+channel and the state arm (the worker thread can be preempted there) -/
+inductive EnvOp where
+  | conn (tok : Nat)        -- accept thread: `send` then `inc_counter`
+  | send (tok : Nat)        -- accept thread: `send` only (window W1 opens)
+  | inc                     -- accept thread: `inc_counter` (window W1 closes)
+  | closeChan               -- the accept thread exits: its handle is dropped
+  | closeStop               -- the server drops its handle
+  | stop (graceful : Bool)  -- server: `WorkerHandleServer::stop(graceful)`
+  | finish (id : Nat)       -- a service drops the connection with id `id` (guard drop: `dec`)
+deriving DecidableEq, Repr
+
 inductive Op where
   | conn (tok : Nat)        -- accept thread: `send` then `inc_counter`
   | send (tok : Nat)        -- accept thread: `send` only (window W1 opens)
   | inc                     -- accept thread: `inc_counter` (window W1 closes)
   | closeChan               -- the accept-side handle is dropped
+  | closeStop               -- the server-side handle is dropped
   | stop (graceful : Bool)  -- server: `WorkerHandleServer::stop(graceful)`
   | finish (id : Nat)       -- a service drops the connection with id `id` (guard drop: `dec`)
   | advance (ms : Nat)
   | poll (fuel : Nat)
+  | pollY (fuel : Nat) (acts : List EnvOp)   -- one `poll` during which `acts` happen right after the look at the `Stop` channel
 deriving DecidableEq, Repr
+
+def EnvOp.toOp : EnvOp → Op
+  | .conn t => .conn t | .send t => .send t | .inc => .inc | .closeChan => .closeChan | .closeStop => .closeStop
+  | .stop g => .stop g | .finish id => .finish id
 
 /-- observation of one op (what the harness sees besides the log) -/
 inductive Res where
@@ -298,7 +329,8 @@ inductive Res where
   | stop (k : Nat) (woke : Bool)
   | advanced (woke : Bool)  -- the tick timer fired and woke the task
   | polled
-deriving DecidableEq, Repr
+  | polledY (rs : List Res)
+deriving Repr
 
 def timerFires (s : St) (now' : Nat) : Bool :=
   match s.state with
@@ -318,12 +350,15 @@ def step (s : St) : Op → St × Res
     else
       let c : Conn := (s.nextConn, tok)
       ({ s with queue := s.queue ++ [c], sent := s.sent ++ [c], nextConn := s.nextConn + 1, connWaker := false }, .conn c.1 s.connWaker)
-  | .inc => if s.fault.isSome then (s, .bad) else ({ s with raw := s.raw + 1 }, .ok)
+  | .inc => if s.fault.isSome || !s.chanOpen then (s, .bad) else ({ s with raw := s.raw + 1 }, .ok)
   | .closeChan =>
     if s.fault.isSome || !s.chanOpen then (s, .bad)
     else ({ s with chanOpen := false, connWaker := false }, .closed (s.connWaker && !s.finished))
+  | .closeStop =>
+    if s.fault.isSome || !s.stopOpen then (s, .bad)
+    else ({ s with stopOpen := false, stopWaker := false }, .closed (s.stopWaker && !s.finished))
   | .stop g =>
-    if s.fault.isSome then (s, .bad)
+    if s.fault.isSome || !s.stopOpen then (s, .bad)
     else if s.finished then (emit { s with nextStop := s.nextStop + 1 } [.replyGone s.nextStop], .stop s.nextStop false)
     else ({ s with stopQ := s.stopQ ++ [(s.nextStop, g)], nextStop := s.nextStop + 1, stopWaker := false }, .stop s.nextStop s.stopWaker)
   | .finish id =>
@@ -337,10 +372,29 @@ def step (s : St) : Op → St × Res
   | .poll fuel =>
     if s.fault.isSome || s.finished then (s, .bad)
     else (pollW fuel (emit s [.enter]), .polled)
+  | .pollY _ _ => (s, .bad)   -- see `stepY` (kept apart: `step` is not recursive)
+
+/-- the actions of other threads, in order; their results -/
+def runEnv (s : St) : List EnvOp → St × List Res
+  | [] => (s, [])
+  | a :: as => ((runEnv (step s a.toOp).1 as).1, (step s a.toOp).2 :: (runEnv (step s a.toOp).1 as).2)
+
+/-- one `poll` in which the worker thread is overtaken by `acts` between its look at the `Stop` channel and
+the state arm (first pass through `poll` only; the re-entries `self.poll(cx)` run undisturbed) -/
+def pollY (fuel : Nat) (acts : List EnvOp) (s : St) : St × List Res :=
+  if (stopPhase s).2 || (stopPhase s).1.fault.isSome then ((stopPhase s).1, [])
+  else if (arm (runEnv (stopPhase s).1 acts).1).2 then (pollW fuel (arm (runEnv (stopPhase s).1 acts).1).1, (runEnv (stopPhase s).1 acts).2)
+  else ((arm (runEnv (stopPhase s).1 acts).1).1, (runEnv (stopPhase s).1 acts).2)
+
+def stepY (s : St) : Op → St × Res
+  | .pollY fuel acts =>
+    if s.fault.isSome || s.finished then (s, .bad)
+    else ((pollY fuel acts (emit s [.enter])).1, .polledY (pollY fuel acts (emit s [.enter])).2)
+  | o => step s o
 
 def run (s : St) : List Op → St
   | [] => s
-  | o :: os => run (step s o).1 os
+  | o :: os => run (stepY s o).1 os
 
 structure Cfg where
   n : Nat
